@@ -155,6 +155,14 @@ def check_unary(ctx, kind, d, md, dd):
             td = d.to_days()
             if _alpha3(td) != md or td.get_is_in_weeks() or not (td == d) or hash(td) != hash(d):
                 ctx.violation("to_days", sig, case, str(d), str(td))
+        # the standardize=True spelling of the same components (carries seconds -> minutes -> hours -> days) is the
+        # same duration: same years, months and total exact length; equal; same hash
+        if "weeks" not in dd or len([v for v in dd.values() if v]) > 1:
+            ctx.transitions += 1
+            std = impl.Duration(standardize=True, **dd)
+            if _alpha3(std) != md or not (std == d) or not (d == std) or hash(std) != hash(d) or (std < d) or (std > d):
+                ctx.violation("standardize_same_value", sig, case, str(d), str(std))
+            ctx.outcome("standardize_carries", (std.days != d.days, std.hours != d.hours, std.minutes != d.minutes))
     except Exception as ex:
         ctx.violation("total", dict(sig, exc=type(ex).__name__), case, "unary operations work",
                       "raised %s: %s" % (type(ex).__name__, ex))
@@ -195,6 +203,19 @@ def run_unit(unit, ctx):
             ctx.state_count += 1
             for j in range(len(DECIMALS)):
                 check_pair(ctx, kind, objs[i], ms[i], DECIMALS[i], objs[j], ms[j], DECIMALS[j], tol=True)
+        for i, dd in enumerate(DECIMALS):
+            if "weeks" in dd:
+                continue
+            ctx.transitions += 1
+            try:
+                std = impl.Duration(standardize=True, **dd)
+                y, mo, ln, _ = impl.alpha_duration(std)
+                if (y, mo) != ms[i][:2] or abs(ln - ms[i][2]) > TOL:
+                    ctx.violation("standardize_same_value", {"week_form": False, "decimal": True},
+                                  {"kind": "standardize", "mode": kind, "a": dd}, str(objs[i]), str(std))
+            except Exception as ex:
+                ctx.violation("total", {"exc": type(ex).__name__}, {"kind": "standardize", "mode": kind, "a": dd},
+                              "Duration(standardize=True) works", repr(ex))
     elif u == "triples":
         sub = descs[:: max(1, len(descs) // 56)][:56] + [{"weeks": 1}, {"weeks": -2}, {}]
         if ctx.tier == "quick":
@@ -216,7 +237,9 @@ def run_unit(unit, ctx):
 def replay_case(case, ctx):
     kind = case["mode"]
     impl.set_mode(A.MODE_OF[kind])
-    if case["kind"] == "unary":
+    if case["kind"] == "standardize":
+        run_unit(("decimal", kind), ctx)
+    elif case["kind"] == "unary":
         check_unary(ctx, kind, impl.build_duration(case["a"]), model(case["a"]), case["a"])
     elif case["kind"] == "pair":
         a, b = case["a"], case["b"]
